@@ -65,13 +65,21 @@ def cases(ctx):
         yield from emit(d, 'regression')
     for i in range(ctx.n(900, 6000)):
         g = omgen.Gen(rng, nh=False, rich=(i % 5 != 0))
-        doc = g.document()
+        sdoc = g.doc()
+        doc = omgen.render(sdoc)
         yield from emit(doc, 'valid')
+        if i % 3 == 0:        # groups exposed again at a later timestamp (scrape history)
+            yield from emit(omgen.render(omgen.repeat_exposures(rng, sdoc)), 'repeat')
         for mdoc, kind in omgen.mutations(rng, doc, single=ctx.n(14, 40), double=ctx.n(4, 10)):
             yield from emit(mdoc, 'mut')
 
 
+# Known finding c04b_same_instant_two_classes (last entry of the list; the generator avoids it on purpose): one series
+# twice at the same instant written once as Timestamp and once as float, e.g.  a 0 1.0 / a 0 1e0 .  The duplicate
+# suppression compares timestamps with !=, which is class-sensitive, so both samples are kept; exposed they read
+# 1.000000000 and 1.0, both Timestamp(1, 0), and the second is then dropped: the document does not round-trip.
 ROUNDTRIP_DOCS = [
+    '# TYPE a gauge\na 0 1.0\na 0 1e0\n# EOF\n',
     '# TYPE a gauge\na 1 -1.5\n# EOF\n',                      # Timestamp(-1, -500000000) is written -1.-500000000
     '# TYPE a gauge\na 1 -0.5\n# EOF\n', '# TYPE a gauge\na 1 -.5\n# EOF\n', '# TYPE a gauge\na 1 -0.000000001\n# EOF\n',
     '# TYPE a gauge\na 1 1.5e0\n# EOF\n',
